@@ -1,6 +1,7 @@
 package main
 
 import (
+	"sort"
 	"crypto/sha256"
 	"encoding/hex"
 	"fmt"
@@ -60,6 +61,8 @@ type world struct {
 	rrTotal, rrHeld sdk.Int
 	rrVariant string
 	custN, custMode int
+	expectOK     string                  // set before a transaction that the ghost record says must be accepted
+	tipGhost     map[uint64][2]int       // ghost record of pending verify requests: id -> (requester, verifier)
 	ghost        map[string]map[int]bool // ghost record: lower-case hash -> listed custodians whose approval was accepted
 	foreignFees  int      // 0: ukex fees only, 1: ukex+ubtc, 2: ukex+ubtc+xeth
 	compoundDesc []string // the compound settings of this history (replay data)
@@ -67,7 +70,7 @@ type world struct {
 
 func newWorld(seed uint64, r *hx.Rng, rec *recorder, hist int) *world {
 	w := &world{r: r, rec: rec, hist: hist, seed: seed, ids: map[string]int64{}, names: map[int64]string{}, nextU: 100, nextE: 1500,
-		nameIDs: map[string]int64{}, secretOf: map[int]string{}, ghost: map[string]map[int]bool{}}
+		nameIDs: map[string]int64{}, secretOf: map[int]string{}, ghost: map[string]map[int]bool{}, tipGhost: map[uint64][2]int{}}
 	w.c = abci.NewChain(abci.Config{Accounts: nAcc, Validators: 2, Seed: seed, Gov: func(g *govtypes.GenesisState) {
 		g.NetworkProperties.AutocompoundIntervalNumBlocks = uint64(1 + hist%2) // compounding rounds happen within a history
 	}})
@@ -173,7 +176,8 @@ func (w *world) history(only string) {
 	w.ops(14, only)
 	w.end()
 	w.begin(5)
-	w.ops(12, only)
+	w.tipScenario()
+	w.ops(10, only)
 	w.end()
 	for i := 0; i < 3; i++ { // short blocks: several reward / compounding rounds
 		w.begin(5)
@@ -281,13 +285,30 @@ func (w *world) setupCompound() {
 	w.compoundDesc = append(w.compoundDesc, fmt.Sprintf("fee denoms in use: %d foreign; autocompound interval %d blocks", v.fees, 1+w.hist%2))
 }
 
+var identityOwners = []int{0, 1, 2, 3, 4}
+
+func (w *world) registerIdentity(a int, value string, key string) abci.TxResult {
+	r := w.tx("register-identity", false, []sdk.Msg{govtypes.NewMsgRegisterIdentityRecords(w.addr(a), []govtypes.IdentityInfoEntry{{Key: key, Info: value}})}, []int{a})
+	if r.Code == 0 { // any accepted edit may cancel the owner's requests: they leave the ghost record
+		for id, rv := range w.tipGhost {
+			if rv[0] == a {
+				delete(w.tipGhost, id)
+			}
+		}
+	}
+	return r
+}
+
 func (w *world) setupIdentity() {
-	for _, a := range []int{0, 3, 4} {
+	for _, a := range identityOwners {
 		w.must("register-identity", []sdk.Msg{govtypes.NewMsgRegisterIdentityRecords(w.addr(a), []govtypes.IdentityInfoEntry{
 			{Key: "moniker", Info: fmt.Sprintf("mon%d", a)}, {Key: "site", Info: fmt.Sprintf("s%d.example", a)}})}, []int{a})
 	}
+	// several requesters' tips sit in the escrow at once
 	w.requestVerify(3, 4)
 	w.requestVerify(4, 5)
+	w.requestVerify(1, 2)
+	w.requestVerify(0, 6)
 }
 
 func (w *world) requestVerify(req, ver int) {
@@ -295,7 +316,105 @@ func (w *world) requestVerify(req, ver int) {
 	if len(recs) == 0 {
 		return
 	}
-	w.tx("request-identity-verify", false, []sdk.Msg{govtypes.NewMsgRequestIdentityRecordsVerify(w.addr(req), w.addr(ver), []uint64{recs[0].Id}, ukex(300+int64(w.r.Intn(500))))}, []int{req})
+	r := w.tx("request-identity-verify", false, []sdk.Msg{govtypes.NewMsgRequestIdentityRecordsVerify(w.addr(req), w.addr(ver), []uint64{recs[0].Id}, ukex(300+int64(w.r.Intn(500))))}, []int{req})
+	if r.Code == 0 {
+		w.tipGhost[w.c.App.CustomGovKeeper.GetLastIdRecordVerifyRequestId(w.ctx())] = [2]int{req, ver}
+	}
+}
+
+// handleVerify / cancelVerify: settlement messages; an accepted one by the rightful party closes
+// the ghost entry, and a rightful settlement of an entry still pending in the ghost record and in
+// the store is expected to be accepted
+func (w *world) handleVerify(op string, attack bool, s int, id uint64, yes bool) {
+	if rv, ok := w.tipGhost[id]; ok && rv[1] == s && w.c.App.CustomGovKeeper.GetIdRecordsVerifyRequest(w.ctx(), id) != nil {
+		w.expectOK = "tip"
+	}
+	r := w.tx(op, attack, []sdk.Msg{govtypes.NewMsgHandleIdentityRecordsVerifyRequest(w.addr(s), id, yes)}, []int{s})
+	if rv, ok := w.tipGhost[id]; ok && r.Code == 0 && rv[1] == s {
+		delete(w.tipGhost, id)
+	}
+}
+func (w *world) cancelVerify(op string, attack bool, s int, id uint64) {
+	if rv, ok := w.tipGhost[id]; ok && rv[0] == s && w.c.App.CustomGovKeeper.GetIdRecordsVerifyRequest(w.ctx(), id) != nil {
+		w.expectOK = "tip"
+	}
+	r := w.tx(op, attack, []sdk.Msg{govtypes.NewMsgCancelIdentityRecordsVerifyRequest(w.addr(s), id)}, []int{s})
+	if rv, ok := w.tipGhost[id]; ok && r.Code == 0 && rv[0] == s {
+		delete(w.tipGhost, id)
+	}
+}
+
+func (w *world) ghostRotation(m sdk.Msg) {
+	old := ""
+	switch x := m.(type) {
+	case *recoverytypes.MsgRotateRecoveryAddress:
+		old = x.Address
+	case *recoverytypes.MsgRotateValidatorByHalfRRTokenHolder:
+		old = x.Address
+	}
+	if old == "" {
+		return
+	}
+	for id, rv := range w.tipGhost {
+		if w.astr(rv[0]) == old || w.astr(rv[1]) == old {
+			delete(w.tipGhost, id)
+		}
+	}
+}
+
+// tipScenario: between the creation and the settlement of a request the requester operates on
+// the underlying record (same value / new value / other key / delete), every settlement is
+// repeated (handle twice, cancel after handle), and a bystander with a pending tip of his own
+// finally settles it -- which must succeed
+func (w *world) tipScenario() {
+	ctx := w.ctx()
+	var mine []govtypes.IdentityRecordsVerify
+	for _, r := range w.c.App.CustomGovKeeper.GetAllIdRecordsVerifyRequests(ctx) {
+		if w.id(r.Address) < nAcc && w.id(r.Verifier) < nAcc {
+			mine = append(mine, r)
+		}
+	}
+	if len(mine) < 2 {
+		return
+	}
+	r := mine[w.hist%len(mine)]
+	req, ver := int(w.id(r.Address)), int(w.id(r.Verifier))
+	switch (w.hist / 2) % 4 {
+	case 0:
+		w.registerIdentity(req, fmt.Sprintf("mon%d", req), "moniker") // same value: the date moves, the request stays
+	case 1:
+		w.registerIdentity(req, fmt.Sprintf("s%d.example", req), "site") // same value of the other key
+	case 2:
+		w.registerIdentity(req, fmt.Sprintf("n%d.example", req), "site") // new value of the other key
+	case 3: // nothing in between
+	}
+	w.handleVerify("identity-handle", false, ver, r.Id, w.r.Bool())
+	w.handleVerify("identity-handle-repeat", true, ver, r.Id, true)
+	w.handleVerify("identity-handle-repeat", true, ver, r.Id, false)
+	w.cancelVerify("identity-cancel-after-handle", true, req, r.Id)
+	// bystanders settle their own pending entries
+	for id, rv := range w.tipGhost {
+		_ = id
+		_ = rv
+	}
+	var ids []uint64
+	for id := range w.tipGhost {
+		ids = append(ids, id)
+	}
+	sort.Slice(ids, func(i, j int) bool { return ids[i] < ids[j] })
+	n := 0
+	for _, id := range ids {
+		rv := w.tipGhost[id]
+		if id == r.Id || n >= 2 {
+			continue
+		}
+		n++
+		if n == 1 {
+			w.cancelVerify("identity-cancel", false, rv[0], id)
+		} else {
+			w.handleVerify("identity-handle", false, rv[1], id, true)
+		}
+	}
 }
 
 func (w *world) setupLayer2() {
@@ -578,7 +697,7 @@ func (w *world) opTable() map[string]opFn {
 			w.tx("register-delegator", false, []sdk.Msg{mstypes.NewMsgRegisterDelegator(w.astr(s))}, []int{s})
 		},
 		"h:identity-request": func(w *world) {
-			s := []int{0, 3, 4}[w.r.Intn(3)]
+			s := identityOwners[w.r.Intn(len(identityOwners))]
 			w.requestVerify(s, w.other(s))
 		},
 		"h:identity-handle": func(w *world) {
@@ -591,7 +710,65 @@ func (w *world) opTable() map[string]opFn {
 			if v >= nAcc {
 				return
 			}
-			w.tx("identity-handle", false, []sdk.Msg{govtypes.NewMsgHandleIdentityRecordsVerifyRequest(w.addr(v), r.Id, w.r.Bool())}, []int{v})
+			w.handleVerify("identity-handle", false, v, r.Id, w.r.Bool())
+			if w.r.Chance(40) { // every settlement is also repeated
+				w.handleVerify("identity-handle-repeat", true, v, r.Id, w.r.Bool())
+			}
+			if w.r.Chance(30) && int(w.id(r.Address)) < nAcc {
+				w.cancelVerify("identity-cancel-after-handle", true, int(w.id(r.Address)), r.Id)
+			}
+		},
+		"h:identity-reregister": func(w *world) { // the requester edits the underlying records between creation and settlement
+			a := identityOwners[w.r.Intn(len(identityOwners))]
+			switch w.r.Intn(4) {
+			case 0:
+				w.registerIdentity(a, fmt.Sprintf("mon%d", a), "moniker")
+			case 1:
+				w.registerIdentity(a, fmt.Sprintf("s%d.example", a), "site")
+			case 2:
+				w.registerIdentity(a, fmt.Sprintf("n%d-%d.example", a, w.r.Intn(3)), "site")
+			default:
+				r := w.tx("delete-identity", false, []sdk.Msg{govtypes.NewMsgDeleteIdentityRecords(w.addr(a), []string{"site"})}, []int{a})
+				if r.Code == 0 {
+					for id, rv := range w.tipGhost {
+						if rv[0] == a {
+							delete(w.tipGhost, id)
+						}
+					}
+				}
+			}
+		},
+		"x:settle-twice": func(w *world) { // claim / withdraw the same entry twice in a row
+			switch w.r.Intn(4) {
+			case 0:
+				us := app.MultiStakingKeeper.GetAllUndelegations(w.ctx())
+				if len(us) == 0 {
+					return
+				}
+				u := us[w.r.Intn(len(us))]
+				o := int(w.id(u.Address))
+				if o >= nAcc {
+					return
+				}
+				for i := 0; i < 2; i++ {
+					w.tx("claim-undelegation-twice", i > 0, []sdk.Msg{mstypes.NewMsgClaimUndelegation(u.Address, u.Id)}, []int{o})
+				}
+			case 1:
+				s := w.r.Intn(nAcc)
+				for i := 0; i < 2; i++ {
+					w.tx("claim-rewards-twice", i > 0, []sdk.Msg{mstypes.NewMsgClaimRewards(w.astr(s))}, []int{s})
+				}
+			case 2:
+				s := []int{1, 2, 4}[w.r.Intn(3)]
+				for i := 0; i < 2; i++ {
+					w.tx("collective-withdraw-twice", i > 0, []sdk.Msg{collectivestypes.NewMsgWithdrawCollective(w.addr(s), "col1")}, []int{s})
+				}
+			default:
+				s := []int{0, 7}[w.r.Intn(2)]
+				for i := 0; i < 2; i++ {
+					w.tx("rr-claim-holder-rewards-twice", i > 0, []sdk.Msg{recoverytypes.NewMsgClaimRRHolderRewards(w.addr(s))}, []int{s})
+				}
+			}
 		},
 		"h:identity-cancel": func(w *world) {
 			rs := app.CustomGovKeeper.GetAllIdRecordsVerifyRequests(w.ctx())
@@ -603,7 +780,10 @@ func (w *world) opTable() map[string]opFn {
 			if o >= nAcc {
 				return
 			}
-			w.tx("identity-cancel", false, []sdk.Msg{govtypes.NewMsgCancelIdentityRecordsVerifyRequest(w.addr(o), r.Id)}, []int{o})
+			w.cancelVerify("identity-cancel", false, o, r.Id)
+			if w.r.Chance(40) {
+				w.cancelVerify("identity-cancel-repeat", true, o, r.Id)
+			}
 		},
 		"x:identity-handle-by-stranger": func(w *world) {
 			rs := app.CustomGovKeeper.GetAllIdRecordsVerifyRequests(w.ctx())
@@ -615,7 +795,7 @@ func (w *world) opTable() map[string]opFn {
 			if w.astr(s) == r.Verifier {
 				s = w.other(s)
 			}
-			w.tx("identity-handle-by-stranger", true, []sdk.Msg{govtypes.NewMsgHandleIdentityRecordsVerifyRequest(w.addr(s), r.Id, true)}, []int{s})
+			w.handleVerify("identity-handle-by-stranger", true, s, r.Id, true)
 		},
 		"x:identity-cancel-by-stranger": func(w *world) {
 			rs := app.CustomGovKeeper.GetAllIdRecordsVerifyRequests(w.ctx())
@@ -627,11 +807,11 @@ func (w *world) opTable() map[string]opFn {
 			if w.astr(s) == r.Address {
 				s = w.other(s)
 			}
-			w.tx("identity-cancel-by-stranger", true, []sdk.Msg{govtypes.NewMsgCancelIdentityRecordsVerifyRequest(w.addr(s), r.Id)}, []int{s})
+			w.cancelVerify("identity-cancel-by-stranger", true, s, r.Id)
 		},
 		"x:identity-request-for-other": func(w *world) { // tip taken from msg.Address; the signer names somebody else
 			s := w.r.Intn(nAcc)
-			v := []int{0, 3, 4}[w.r.Intn(3)]
+			v := identityOwners[w.r.Intn(len(identityOwners))]
 			if v == s {
 				return
 			}
